@@ -260,3 +260,5 @@ def run(ctx, led):
     from . import predrules
     run_rule(led, "A12", "is_mutually_exclusive_with answers true only for two predicates on one variable that no value satisfies together (TABLE)", predrules.mutex_sound, ctx)
     run_rule(led, "A13", "Predicate negation is the exact complement (shared with C02-U9)", predrules.negation_exact, ctx)
+    from . import C07 as _C07
+    run_rule(led, "A14", "no-learning resolver: the flipped decision carries a reason covering every earlier decision level (shared with C07-J7)", _C07.j7, ctx)
